@@ -70,11 +70,23 @@ struct CountPolls<F> {
     f: Pin<Box<F>>,
     pending: Rc<Cell<u32>>,
 }
+
+thread_local! {
+    /// op index currently executed by each client (for OpFirstPending)
+    static CUR_OPS: RefCell<Vec<usize>> = const { RefCell::new(Vec::new()) };
+}
 impl<F: Future> Future for CountPolls<F> {
     type Output = F::Output;
     fn poll(mut self: Pin<&mut Self>, cx: &mut TaskCx<'_>) -> Poll<F::Output> {
         match self.f.as_mut().poll(cx) {
             Poll::Pending => {
+                if self.pending.get() == 0 {
+                    if let Some(TaskTag::Client(client)) = with_case(|c| c.sim.current_tag()) {
+                        if let Some(op) = CUR_OPS.with(|c| c.borrow().get(client).copied()) {
+                            log(EvKind::OpFirstPending { client, op });
+                        }
+                    }
+                }
                 self.pending.set(self.pending.get() + 1);
                 Poll::Pending
             }
@@ -107,6 +119,33 @@ impl<T> Future for PollThenDrop<'_, T> {
             Poll::Pending => {
                 // come back even if nobody wakes us: the budget is in polls, not in events
                 cx.waker().wake_by_ref();
+                Poll::Pending
+            }
+        }
+    }
+}
+
+thread_local! {
+    /// join futures kept alive by `JoinStash` (dropped when the case is torn down)
+    static STASH: RefCell<Vec<Pin<Box<dyn Future<Output = ()>>>>> = const { RefCell::new(Vec::new()) };
+}
+
+/// polls the inner future `extra` times more than it is woken
+struct Repoll<'a, T> {
+    f: Pin<Box<dyn Future<Output = T> + 'a>>,
+    extra: u32,
+}
+impl<T> Future for Repoll<'_, T> {
+    type Output = T;
+    fn poll(mut self: Pin<&mut Self>, cx: &mut TaskCx<'_>) -> Poll<T> {
+        let this = &mut *self;
+        match this.f.as_mut().poll(cx) {
+            Poll::Ready(v) => Poll::Ready(v),
+            Poll::Pending => {
+                if this.extra > 0 {
+                    this.extra -= 1;
+                    cx.waker().wake_by_ref();
+                }
                 Poll::Pending
             }
         }
@@ -308,6 +347,7 @@ pub fn run_case(case: &Case) -> RunOutput {
     }
     // ---- teardown
     cx.log(EvKind::Phase(Phase::Teardown));
+    STASH.with(|s| s.borrow_mut().clear());
     // stuck clients are cancelled first (so that their tables can be emptied below)
     for t in sim.alive_tasks() {
         if let TaskTag::Client(_) = sim.tag_of(t) {
@@ -342,7 +382,7 @@ pub fn run_case(case: &Case) -> RunOutput {
     // ---- drain
     cx.log(EvKind::Phase(Phase::Drain));
     let drain_budget = sim.steps.get() + budget;
-    let time_limit = sim.now() + 5_000;
+    let time_limit = sim.now() + 5_000 + 2 * horizon;
     loop {
         if sim.steps.get() > drain_budget {
             flags.not_quiescent = true;
@@ -420,7 +460,7 @@ pub fn horizon_of(case: &Case) -> u64 {
     for c in &case.clients {
         for op in c {
             match op {
-                ClientOp::Send { work, .. } | ClientOp::Call { work, .. } | ClientOp::CallDrop { work, .. } => {
+                ClientOp::Send { work, .. } | ClientOp::Call { work, .. } | ClientOp::CallDrop { work, .. } | ClientOp::SendRepoll { work, .. } => {
                     total += steps_sleep(work);
                     for s in work {
                         if let Step::AddTimer(ts) = s {
@@ -532,6 +572,13 @@ async fn run_client(me: usize, ops: Vec<ClientOp>, table_rc: Rc<RefCell<Table>>,
 }
 
 fn begin(me: usize, opi: usize, what: OpWhat, held: Option<&Held>, msg: Option<u32>) {
+    CUR_OPS.with(|c| {
+        let mut v = c.borrow_mut();
+        if v.len() <= me {
+            v.resize(me + 1, 0);
+        }
+        v[me] = opi;
+    });
     with_case(|c| c.last_client_time.set(c.sim.now()));
     log(EvKind::OpBegin { client: me, op: opi, what, actor: held.map(|h| h.actor), via: held.map(|h| h.h.kind()), msg });
 }
@@ -592,6 +639,48 @@ async fn exec_op(me: usize, opi: usize, op: &ClientOp, table: &mut Table, all: &
                 _ => unreachable!(),
             };
             end(me, opi, res_reply(r), polls);
+        }
+        ClientOp::SendRepoll { h, work, extra } => {
+            let i = need!(me, opi, table, *h, |k| matches!(k, K::Addr | K::Owning | K::Sender | K::WeakSender));
+            let held = table[i].as_ref().unwrap();
+            let id = msg_id(me, opi);
+            let m = Cast { msg: MsgRef::Client(id), work: Arc::new(work.clone()) };
+            begin(me, opi, OpWhat::Send, Some(held), Some(id));
+            let fut: Pin<Box<dyn Future<Output = Result<(), hannibal::error::ActorError>> + '_>> = match &held.h {
+                H::Addr(a) => Box::pin(async move { on_any!(a, AnyAddr, a => a.send(m).await) }),
+                H::Owning(a) => Box::pin(async move { on_any!(a, AnyOwning, a => a.send(m).await) }),
+                H::Sender(s) => Box::pin(s.send(m)),
+                H::WeakSender(s) => Box::pin(s.try_send(m)),
+                _ => unreachable!(),
+            };
+            let (r, polls) = counted(Repoll { f: fut, extra: *extra as u32 }).await;
+            end(me, opi, res_unit(r), polls);
+        }
+        ClientOp::JoinStash { h } => {
+            let i = need!(me, opi, table, *h, |k| k == K::Owning);
+            let held = table[i].as_mut().unwrap();
+            begin(me, opi, OpWhat::JoinStash, Some(held), None);
+            let H::Owning(o) = &mut held.h else { unreachable!() };
+            let mut f: Pin<Box<dyn Future<Output = ()>>> = match o {
+                AnyOwning::A0(o) => {
+                    let f = o.join();
+                    Box::pin(async move {
+                        let _ = f.await;
+                    })
+                }
+                AnyOwning::A1(o) => {
+                    let f = o.join();
+                    Box::pin(async move {
+                        let _ = f.await;
+                    })
+                }
+            };
+            // one poll, then it stays alive (unpolled) in the client's stash
+            let done = futures::future::poll_fn(|cx| Poll::Ready(f.as_mut().poll(cx).is_ready())).await;
+            if !done {
+                STASH.with(|s| s.borrow_mut().push(f));
+            }
+            end(me, opi, OpRes::Bool(done), 0);
         }
         ClientOp::CallDrop { h, work, polls } => {
             let i = need!(me, opi, table, *h, |k| matches!(k, K::Addr | K::Owning | K::Caller | K::WeakCaller));
